@@ -144,3 +144,6 @@ pub(crate) fn add_dir_record(reloader: &HotReloader, id: &str) {
         }
     });
 }
+
+#[cfg(kani)]
+include!(concat!(env!("ASSETS_MANAGER_VERIF"), "/incrate/hot_reloading_records.rs"));
